@@ -686,7 +686,8 @@ class Gen:
             if fk == "dynlen":
                 # (a 16 bit item count in front of items of zero size makes both sides build lists of up to 65535 empty
                 # items: correct, but it dominates the run time of the model)
-                cnt = simple(std(BUINT, r.choice([8, 8, 4, 16] if s.get("params") else [8, 8, 4]), None, r.random() < 0.7))
+                # (the same holds for items which may occupy nothing: only items of a positive static size get a wide count)
+                cnt = simple(std(BUINT, r.choice([8, 8, 4, 16] if (self.static_size(s) or 0) > 0 else [8, 8, 4]), None, r.random() < 0.7))
                 cb, cbit = r.choice([(0, 0), (0, 0), (1, 0), (0, 2)])
                 off = cb + (cnt["dct"]["bl"] + cbit + 7) // 8 + r.choice([0, 0, 1])
                 return dict(k="dynlen", s=s, offset=off, cb=cb, cbit=cbit, cnt=cnt)
